@@ -60,36 +60,24 @@ theorem allDone_nRunning : ∀ (l : List TSt), allDone l = true → nRunning l =
 /-- permits in the hands of the tasks or free -/
 def total (s : State) : Nat := nRunning s.st + s.free
 
-/-- what the caller's `async with sema:` block gives back when it ends -/
-def bonus : Entry → Nat
-  | .holdingPermit => 1
-  | .boundedGather => 0
-
-/-- what `total` must be, for a semaphore created with `n` permits -/
+/-- what `total` must be, for a semaphore created with `n` permits of which the caller holds one -/
 def budget (n : Nat) (s : State) : Nat :=
-  match s.entry, s.flavour, s.helper with
-  | .holdingPermit, .online, .active => n - 1      -- the body keeps the caller's permit
-  | .holdingPermit, .online, _ => n
-  | .holdingPermit, _, .raised _ => n + 1          -- released twice, acquired once
-  | .holdingPermit, _, _ => n
-  | .boundedGather, .online, .active => n
-  | .boundedGather, .online, .exiting => n + 1
-  | .boundedGather, .online, _ => n
-  | .boundedGather, _, .returned _ => n
-  | .boundedGather, _, _ => n + 1                  -- a permit nobody held was released
+  match s.flavour, s.helper with
+  | .online, .active => n - 1      -- the body keeps the caller's permit
+  | .online, _ => n
+  | _, .raised _ => n + 1          -- finding F4: released twice, acquired once
+  | _, _ => n
 
-@[simp] theorem leave_entry (s : State) : (leave s).entry = s.entry := by unfold leave; split <;> rfl
-@[simp] theorem leave_flavour (s : State) : (leave s).flavour = s.flavour := by unfold leave; split <;> rfl
-@[simp] theorem leave_helper (s : State) : (leave s).helper = s.helper := by unfold leave; split <;> rfl
-@[simp] theorem leave_outs (s : State) : (leave s).outs = s.outs := by unfold leave; split <;> rfl
-@[simp] theorem leave_exc (s : State) : (leave s).exc = s.exc := by unfold leave; split <;> rfl
-@[simp] theorem leave_pending (s : State) : (leave s).pendingAtReturn = s.pendingAtReturn := by unfold leave; split <;> rfl
+@[simp] theorem leave_entry (s : State) : (leave s).entry = s.entry := rfl
+@[simp] theorem leave_flavour (s : State) : (leave s).flavour = s.flavour := rfl
+@[simp] theorem leave_helper (s : State) : (leave s).helper = s.helper := rfl
+@[simp] theorem leave_outs (s : State) : (leave s).outs = s.outs := rfl
+@[simp] theorem leave_exc (s : State) : (leave s).exc = s.exc := rfl
+@[simp] theorem leave_pending (s : State) : (leave s).pendingAtReturn = s.pendingAtReturn := rfl
 
-theorem total_leave (s : State) : total (leave s) = total s + bonus s.entry := by
+theorem total_leave (s : State) : total (leave s) = total s + 1 := by
   unfold leave total
-  cases h : s.entry
-  · have := grant_conserve s.st (s.free + 1); simp only [bonus]; omega
-  · simp [bonus]
+  have := grant_conserve s.st (s.free + 1); simp only []; omega
 
 theorem total_complete (s : State) (i : Nat) (o : Outcome) (h : s.st[i]? = some .running) :
     total (complete s i o) = total s := by
@@ -106,18 +94,18 @@ theorem total_releaseOwn (s : State) : total (releaseOwn s) = total s + 1 := by
   have h2 := grant_conserve s.st (s.free + 1)
   simp only [total, releaseOwn]; omega
 
-theorem total_returnNow (s : State) (h : 1 ≤ s.free) : total (returnNow s) + 1 = total s + bonus s.entry := by
+theorem total_returnNow (s : State) (h : 1 ≤ s.free) : total (returnNow s) + 1 = total s + 1 := by
   unfold returnNow
   rw [total_leave]
   simp only [total]; omega
 
 theorem total_raiseNow (s : State) (e p : Nat) (b : Bool) (h : 1 ≤ s.free) :
-    total (raiseNow s e p b) + (if b then 1 else 0) = total s + bonus s.entry := by
+    total (raiseNow s e p b) + (if b then 1 else 0) = total s + 1 := by
   unfold raiseNow
   rw [total_leave]
   cases b <;> simp only [total] <;> simp <;> omega
 
-theorem total_raiseNow_false (s : State) (e p : Nat) : total (raiseNow s e p false) = total s + bonus s.entry := by
+theorem total_raiseNow_false (s : State) (e p : Nat) : total (raiseNow s e p false) = total s + 1 := by
   unfold raiseNow
   rw [total_leave]
   simp [total]
@@ -215,49 +203,49 @@ theorem budget_step {n : Nat} (hn : 1 ≤ n) {s s' : State} {op : Op} (hb : tota
           simp at h; subst h
           have := total_returnNow (complete s i o) (by
             have := hfree had.2
-            cases hen : s.entry <;> simp [budget, hen, hfl, had.1] at hb <;> omega)
-          cases hen : s.entry <;> simp [budget, hen, hfl, had.1, bonus] at hb this ⊢ <;> omega
+            simp [budget, hfl, had.1] at hb <;> omega)
+          simp [budget, hfl, had.1] at hb this ⊢ <;> omega
         · simp at h; subst h
-          cases hen : s.entry <;> cases hh : s.helper <;> simp [budget, hen, hfl, hh] at hb ⊢ <;> omega
+          cases hh : s.helper <;> simp [budget, hfl, hh] at hb ⊢ <;> omega
       · -- raise, no cancel
         next hfl =>
         split at h
         · next e hh =>
           simp at h; subst h
           have := total_raiseNow_false (complete s i (.raise e)) e (nNotDone (complete s i (.raise e)).st)
-          cases hen : s.entry <;> simp [budget, hen, hfl, hh, bonus] at hb this ⊢ <;> omega
+          simp [budget, hfl, hh] at hb this ⊢ <;> omega
         · next v hh =>
           split at h
           · next had =>
             simp at h; subst h
             have := total_returnNow (complete s i (.ret v)) (by
               have := hfree had
-              cases hen : s.entry <;> simp [budget, hen, hfl, hh] at hb <;> omega)
-            cases hen : s.entry <;> simp [budget, hen, hfl, hh, bonus] at hb this ⊢ <;> omega
+              simp [budget, hfl, hh] at hb <;> omega)
+            simp [budget, hfl, hh] at hb this ⊢ <;> omega
           · simp at h; subst h
-            cases hen : s.entry <;> simp [budget, hen, hfl, hh] at hb ⊢ <;> omega
+            simp [budget, hfl, hh] at hb ⊢ <;> omega
         · simp at h; subst h
-          cases hen : s.entry <;> cases hh : s.helper <;> simp [budget, hen, hfl, hh] at hb ⊢ <;> omega
+          cases hh : s.helper <;> simp [budget, hfl, hh] at hb ⊢ <;> omega
       · -- raise, cancel_on_error
         next hfl =>
         split at h
         · next e hh =>
           simp at h; subst h
-          have h1 := total_cancelFirst (complete s i (.raise e)) i
-          have := total_raiseNow_false (cancelFirst (complete s i (.raise e)) i) e (nNotDone (complete s i (.raise e)).st)
-          cases hen : s.entry <;> simp [budget, hen, hfl, hh, bonus] at hb this ⊢ <;> omega
+          have h1 := total_cancelFirst (complete s i (.raise e)) (complete s i (.raise e)).st.length
+          have := total_raiseNow_false (cancelFirst (complete s i (.raise e)) (complete s i (.raise e)).st.length) e 0
+          simp [budget, hfl, hh] at hb this ⊢ <;> omega
         · next v hh =>
           split at h
           · next had =>
             simp at h; subst h
             have := total_returnNow (complete s i (.ret v)) (by
               have := hfree had
-              cases hen : s.entry <;> simp [budget, hen, hfl, hh] at hb <;> omega)
-            cases hen : s.entry <;> simp [budget, hen, hfl, hh, bonus] at hb this ⊢ <;> omega
+              simp [budget, hfl, hh] at hb <;> omega)
+            simp [budget, hfl, hh] at hb this ⊢ <;> omega
           · simp at h; subst h
-            cases hen : s.entry <;> simp [budget, hen, hfl, hh] at hb ⊢ <;> omega
+            simp [budget, hfl, hh] at hb ⊢ <;> omega
         · simp at h; subst h
-          cases hen : s.entry <;> cases hh : s.helper <;> simp [budget, hen, hfl, hh] at hb ⊢ <;> omega
+          cases hh : s.helper <;> simp [budget, hfl, hh] at hb ⊢ <;> omega
       · -- online
         next hfl =>
         split at h
@@ -267,10 +255,10 @@ theorem budget_step {n : Nat} (hn : 1 ≤ n) {s s' : State} {op : Op} (hb : tota
             simp at h; subst h
             have := total_returnNow (complete s i (.ret v)) (by
               have := hfree had.2
-              cases hen : s.entry <;> simp [budget, hen, hfl, had.1] at hb <;> omega)
-            cases hen : s.entry <;> simp [budget, hen, hfl, had.1, bonus] at hb this ⊢ <;> omega
+              simp [budget, hfl, had.1] at hb <;> omega)
+            simp [budget, hfl, had.1] at hb this ⊢ <;> omega
           · simp at h; subst h
-            cases hen : s.entry <;> cases hh : s.helper <;> simp [budget, hen, hfl, hh] at hb ⊢ <;> omega
+            cases hh : s.helper <;> simp [budget, hfl, hh] at hb ⊢ <;> omega
         · next e =>
           have h1 := total_cancelFirst (complete s i (.raise e)) (complete s i (.raise e)).st.length
           have h2 := cancelFirst_allDone (complete s i (.raise e)) (complete s i (.raise e)).st.length (Nat.le_refl _)
@@ -280,12 +268,12 @@ theorem budget_step {n : Nat} (hn : 1 ≤ n) {s s' : State} {op : Op} (hb : tota
             have h3 := free_of_allDone (withExc (cancelFirst (complete s i (.raise e)) (complete s i (.raise e)).st.length) e) h2
             have := total_raiseNow (withExc (cancelFirst (complete s i (.raise e)) (complete s i (.raise e)).st.length) e) e 0 true (by
               simp only [total, withExc_st, withExc_free] at h3 h1 hc hb ⊢
-              cases hen : s.entry <;> simp [budget, hen, hfl, hh] at hb <;> omega)
+              simp [budget, hfl, hh] at hb <;> omega)
             simp only [total, withExc_st, withExc_free] at this h1 hc hb ⊢
-            cases hen : s.entry <;> simp [budget, hen, hfl, hh, bonus] at hb this ⊢ <;> omega
+            simp [budget, hfl, hh] at hb this ⊢ <;> omega
           · simp at h; subst h
             simp only [total, withExc_st, withExc_free] at h1 hc hb ⊢
-            cases hen : s.entry <;> cases hh : s.helper <;> simp_all [budget] <;> omega
+            cases hh : s.helper <;> simp_all [budget] <;> omega
     · simp at h
   | body o =>
     simp only [step] at h
@@ -295,13 +283,13 @@ theorem budget_step {n : Nat} (hn : 1 ≤ n) {s s' : State} {op : Op} (hb : tota
       · next e hexc =>
         simp at h; subst h
         have h1 := total_cancelFirst s s.st.length
-        have := total_raiseNow_false (withExc (cancelFirst s s.st.length) e) e (nNotDone s.st)
+        have := total_raiseNow_false (withExc (cancelFirst s s.st.length) e) e 0
         simp only [total, withExc_st, withExc_free] at this h1 hb ⊢
-        cases hen : s.entry <;> simp [budget, hen, hfl, hh, bonus] at hb this ⊢ <;> omega
+        simp [budget, hfl, hh] at hb this ⊢ <;> omega
       · next e0 hexc =>
         simp at h; subst h
         have := total_raiseNow_false s e0 0
-        cases hen : s.entry <;> simp [budget, hen, hfl, hh, bonus] at hb this ⊢ <;> omega
+        simp [budget, hfl, hh] at hb this ⊢ <;> omega
       · next v hexc =>
         have h1 := total_releaseOwn s
         split at h
@@ -309,10 +297,10 @@ theorem budget_step {n : Nat} (hn : 1 ≤ n) {s s' : State} {op : Op} (hb : tota
           simp at h; subst h
           have h3 := free_of_allDone (releaseOwn s) had
           have := total_returnNow (releaseOwn s) (by omega)
-          cases hen : s.entry <;> simp [budget, hen, hfl, hh, bonus] at hb this ⊢ <;> omega
+          simp [budget, hfl, hh] at hb this ⊢ <;> omega
         · simp at h; subst h
           simp only [total] at h1 hb ⊢
-          cases hen : s.entry <;> simp [budget, hen, hfl, hh] at hb ⊢ <;> omega
+          simp [budget, hfl, hh] at hb ⊢ <;> omega
     · simp at h
 
 /-! ### more list lemmas -/
@@ -431,7 +419,7 @@ inductive StepCase (s : State) : Op → State → Prop
   | raiseC (i e : Nat) (hst : s.st[i]? = some .running) (hout : s.outs[i]? = some (.raise e))
       (hfl : s.flavour = .raiseCancel) (hh : s.helper = .active) :
       StepCase s (.finish i)
-        (raiseNow (cancelFirst (complete s i (.raise e)) i) e (nNotDone (complete s i (.raise e)).st) false)
+        (raiseNow (cancelFirst (complete s i (.raise e)) (complete s i (.raise e)).st.length) e 0 false)
   | onlineFailExit (i e : Nat) (hst : s.st[i]? = some .running) (hout : s.outs[i]? = some (.raise e))
       (hfl : s.flavour = .online) (hh : s.helper = .exiting) :
       StepCase s (.finish i)
@@ -441,7 +429,7 @@ inductive StepCase (s : State) : Op → State → Prop
       StepCase s (.finish i)
         (withExc (cancelFirst (complete s i (.raise e)) (complete s i (.raise e)).st.length) e)
   | bodyRaise (e : Nat) (hfl : s.flavour = .online) (hh : s.helper = .active) (hexc : s.exc = none) :
-      StepCase s (.body (.raise e)) (raiseNow (withExc (cancelFirst s s.st.length) e) e (nNotDone s.st) false)
+      StepCase s (.body (.raise e)) (raiseNow (withExc (cancelFirst s s.st.length) e) e 0 false)
   | bodyLate (o : Outcome) (e0 : Nat) (hfl : s.flavour = .online) (hh : s.helper = .active) (hexc : s.exc = some e0) :
       StepCase s (.body o) (raiseNow s e0 0 false)
   | bodyRet (v : Nat) (hfl : s.flavour = .online) (hh : s.helper = .active) (hexc : s.exc = none)
@@ -543,15 +531,13 @@ theorem complete_done (s : State) (i : Nat) (o : Outcome) (k : Nat) (q : Res) :
     simp [hk, this]
 
 theorem leave_len (s : State) : (leave s).st.length = s.st.length := by
-  unfold leave; split <;> simp [grant_length]
+  simp [leave, grant_length]
 
 theorem leave_done (s : State) (k : Nat) (q : Res) : (leave s).st[k]? = some (.done q) ↔ s.st[k]? = some (.done q) := by
-  unfold leave; split <;> simp [grant_done]
+  simp [leave, grant_done]
 
 theorem leave_st_allDone (s : State) (h : allDone s.st = true) : (leave s).st = s.st := by
-  unfold leave; split
-  · simp [grant_allDone _ _ h]
-  · rfl
+  simp [leave, grant_allDone _ _ h]
 
 theorem cancelFirst_len (s : State) (j : Nat) : (cancelFirst s j).st.length = s.st.length := by
   simp [cancelFirst, grant_length, cancelBelow_length]
@@ -606,6 +592,8 @@ structure Ctrl (s : State) : Prop where
   excOnline : ∀ e, s.exc = some e → s.flavour = .online ∧ allDone s.st = true
   raisedExc : s.flavour = .online → ∀ e, s.helper = .raised e → s.exc = some e
   rxNoRaise : s.flavour = .returnExceptions → ∀ e, s.helper ≠ .raised e
+  /-- `cancel_on_error=True`: once the helper has raised, every task is finished -/
+  rcRaised : s.flavour = .raiseCancel → ∀ e, s.helper = .raised e → allDone s.st = true
 
 /-- while a task is running nothing is shut down and the helper has not returned -/
 theorem ctrl_running {s : State} (hC : Ctrl s) {i : Nat} (hst : s.st[i]? = some .running) :
@@ -639,18 +627,19 @@ theorem ctrl_step {s s' : State} {op : Op} (hC : Ctrl s) (h : StepCase s op s') 
   | plain i o hst hout hside =>
     obtain ⟨hexc, hnr⟩ := ctrl_running hC hst
     obtain ⟨h1, h2, h3⟩ := ctrl_complete hC hst hout
-    refine ⟨h1, h2, ?_, ?_, ?_, ?_, ?_, ?_⟩
+    refine ⟨h1, h2, ?_, ?_, ?_, ?_, ?_, ?_, ?_⟩
     · intro he hr; exact h3 (hC.nocancel hexc hr)
     · intro sl hh; exact absurd hh (hnr sl)
     · intro hh; exact hC.exiting hh
     · intro e he; simp [hexc] at he
     · intro hfl e hh; have := hC.raisedExc hfl e hh; simp [hexc] at this
     · exact hC.rxNoRaise
+    · intro hfl e hh; exact absurd hst (allDone_get _ _ (hC.rcRaised hfl e hh))
   | ret i o hst hout had hside =>
     obtain ⟨hexc, hnr⟩ := ctrl_running hC hst
     obtain ⟨h1, h2, h3⟩ := ctrl_complete hC hst hout
     have hst' := returnNow_st (complete s i o) had
-    refine ⟨by rw [returnNow_len]; simpa using h1, ?_, ?_, ?_, ?_, ?_, ?_, ?_⟩
+    refine ⟨by rw [returnNow_len]; simpa using h1, ?_, ?_, ?_, ?_, ?_, ?_, ?_, ?_⟩
     · intro k q hk; simpa using h2 k q ((returnNow_done _ k q).mp hk)
     · intro he hr k hk
       refine h3 (hC.nocancel hexc ?_) k ((returnNow_done _ k _).mp hk)
@@ -663,10 +652,11 @@ theorem ctrl_step {s s' : State} {op : Op} (hC : Ctrl s) (h : StepCase s op s') 
     · intro e he; simp [hexc] at he
     · intro hfl e hh; simp at hh
     · intro hfl e hh; simp at hh
+    · intro hfl e hh; simp at hh
   | raiseF i e hst hout hfl hh =>
     obtain ⟨hexc, hnr⟩ := ctrl_running hC hst
     obtain ⟨h1, h2, h3⟩ := ctrl_complete hC hst hout
-    refine ⟨by rw [raiseNow_len]; simpa using h1, ?_, ?_, ?_, ?_, ?_, ?_, ?_⟩
+    refine ⟨by rw [raiseNow_len]; simpa using h1, ?_, ?_, ?_, ?_, ?_, ?_, ?_, ?_⟩
     · intro k q hk; simpa using h2 k q ((raiseNow_done _ _ _ _ k q).mp hk)
     · intro _ hr; exact absurd (raiseNow_helper _ e _ false) (hr e)
     · intro sl hh'; simp at hh'
@@ -674,10 +664,11 @@ theorem ctrl_step {s s' : State} {op : Op} (hC : Ctrl s) (h : StepCase s op s') 
     · intro e' he; simp [hexc] at he
     · intro hfl' e' _; simp [hfl] at hfl'
     · intro hfl' e' _; simp [hfl] at hfl'
+    · intro hfl' e' _; simp [hfl] at hfl'
   | raiseC i e hst hout hfl hh =>
     obtain ⟨hexc, hnr⟩ := ctrl_running hC hst
     obtain ⟨h1, h2, h3⟩ := ctrl_complete hC hst hout
-    refine ⟨by rw [raiseNow_len, cancelFirst_len]; simpa using h1, ?_, ?_, ?_, ?_, ?_, ?_, ?_⟩
+    refine ⟨by rw [raiseNow_len, cancelFirst_len]; simpa using h1, ?_, ?_, ?_, ?_, ?_, ?_, ?_, ?_⟩
     · intro k q hk
       rcases cancelFirst_done _ _ k q ((raiseNow_done _ _ _ _ k q).mp hk) with hq | hq
       · exact Or.inl hq
@@ -688,12 +679,15 @@ theorem ctrl_step {s s' : State} {op : Op} (hC : Ctrl s) (h : StepCase s op s') 
     · intro e' he; simp [hexc] at he
     · intro hfl' e' _; simp [hfl] at hfl'
     · intro hfl' e' _; simp [hfl] at hfl'
+    · intro _ e' _
+      have had := cancelFirst_allDone (complete s i (.raise e)) (complete s i (.raise e)).st.length (Nat.le_refl _)
+      rw [raiseNow_st _ _ _ _ had]; exact had
   | onlineFailExit i e hst hout hfl hh =>
     obtain ⟨hexc, hnr⟩ := ctrl_running hC hst
     obtain ⟨h1, h2, h3⟩ := ctrl_complete hC hst hout
     have had : allDone (withExc (cancelFirst (complete s i (.raise e)) (complete s i (.raise e)).st.length) e).st = true :=
       cancelFirst_allDone (complete s i (.raise e)) (complete s i (.raise e)).st.length (Nat.le_refl _)
-    refine ⟨by rw [raiseNow_len, withExc_st, cancelFirst_len]; simpa using h1, ?_, ?_, ?_, ?_, ?_, ?_, ?_⟩
+    refine ⟨by rw [raiseNow_len, withExc_st, cancelFirst_len]; simpa using h1, ?_, ?_, ?_, ?_, ?_, ?_, ?_, ?_⟩
     · intro k q hk
       have hk' := (raiseNow_done _ _ _ _ k q).mp hk
       rw [withExc_st] at hk'
@@ -708,12 +702,13 @@ theorem ctrl_step {s s' : State} {op : Op} (hC : Ctrl s) (h : StepCase s op s') 
       rw [raiseNow_st _ _ _ _ had]; exact had
     · intro _ e' hh'; simp at hh'; simp [hh']
     · intro hfl' e' _; simp [hfl] at hfl'
+    · intro hfl' e' _; simp [hfl] at hfl'
   | onlineFail i e hst hout hfl hh =>
     obtain ⟨hexc, hnr⟩ := ctrl_running hC hst
     obtain ⟨h1, h2, h3⟩ := ctrl_complete hC hst hout
     have had : allDone (withExc (cancelFirst (complete s i (.raise e)) (complete s i (.raise e)).st.length) e).st = true :=
       cancelFirst_allDone (complete s i (.raise e)) (complete s i (.raise e)).st.length (Nat.le_refl _)
-    refine ⟨by rw [withExc_st, cancelFirst_len]; simpa using h1, ?_, ?_, ?_, ?_, ?_, ?_, ?_⟩
+    refine ⟨by rw [withExc_st, cancelFirst_len]; simpa using h1, ?_, ?_, ?_, ?_, ?_, ?_, ?_, ?_⟩
     · intro k q hk
       rw [withExc_st] at hk
       rcases cancelFirst_done (complete s i (.raise e)) _ k q hk with hq | hq
@@ -727,9 +722,10 @@ theorem ctrl_step {s s' : State} {op : Op} (hC : Ctrl s) (h : StepCase s op s') 
       have := hC.raisedExc hfl e' hh'
       simp [hexc] at this
     · intro hfl' e' _; simp [hfl] at hfl'
+    · intro hfl' e' _; simp [hfl] at hfl'
   | bodyRaise e hfl hh hexc =>
     have had : allDone (withExc (cancelFirst s s.st.length) e).st = true := cancelFirst_allDone s s.st.length (Nat.le_refl _)
-    refine ⟨by rw [raiseNow_len, withExc_st, cancelFirst_len]; simpa using hC.len, ?_, ?_, ?_, ?_, ?_, ?_, ?_⟩
+    refine ⟨by rw [raiseNow_len, withExc_st, cancelFirst_len]; simpa using hC.len, ?_, ?_, ?_, ?_, ?_, ?_, ?_, ?_⟩
     · intro k q hk
       have hk' := (raiseNow_done _ _ _ _ k q).mp hk
       rw [withExc_st] at hk'
@@ -744,9 +740,10 @@ theorem ctrl_step {s s' : State} {op : Op} (hC : Ctrl s) (h : StepCase s op s') 
       rw [raiseNow_st _ _ _ _ had]; exact had
     · intro _ e' hh'; simp at hh'; simp [hh']
     · intro hfl' e' _; simp [hfl] at hfl'
+    · intro hfl' e' _; simp [hfl] at hfl'
   | bodyLate o e0 hfl hh hexc =>
     have had := (hC.excOnline e0 hexc).2
-    refine ⟨by rw [raiseNow_len]; simpa using hC.len, ?_, ?_, ?_, ?_, ?_, ?_, ?_⟩
+    refine ⟨by rw [raiseNow_len]; simpa using hC.len, ?_, ?_, ?_, ?_, ?_, ?_, ?_, ?_⟩
     · intro k q hk; simpa using hC.agree k q ((raiseNow_done _ _ _ _ k q).mp hk)
     · intro he; simp [hexc] at he
     · intro sl hh'; simp at hh'
@@ -756,9 +753,10 @@ theorem ctrl_step {s s' : State} {op : Op} (hC : Ctrl s) (h : StepCase s op s') 
       rw [raiseNow_st _ _ _ _ had]; exact had
     · intro _ e' hh'; simp at hh'; simp [hh', hexc]
     · intro hfl' e' _; simp [hfl] at hfl'
+    · intro hfl' e' _; simp [hfl] at hfl'
   | bodyRet v hfl hh hexc had =>
     have hst' := returnNow_st (releaseOwn s) had
-    refine ⟨by rw [returnNow_len, releaseOwn_len]; simpa using hC.len, ?_, ?_, ?_, ?_, ?_, ?_, ?_⟩
+    refine ⟨by rw [returnNow_len, releaseOwn_len]; simpa using hC.len, ?_, ?_, ?_, ?_, ?_, ?_, ?_, ?_⟩
     · intro k q hk; simpa using hC.agree k q ((releaseOwn_done s k q).mp ((returnNow_done _ k q).mp hk))
     · intro he hr k hk
       refine hC.nocancel hexc ?_ k ((releaseOwn_done s k _).mp ((returnNow_done _ k _).mp hk))
@@ -770,8 +768,9 @@ theorem ctrl_step {s s' : State} {op : Op} (hC : Ctrl s) (h : StepCase s op s') 
     · intro e' he; simp [hexc] at he
     · intro _ e' hh'; simp at hh'
     · intro hfl' e' _; simp [hfl] at hfl'
+    · intro hfl' e' _; simp [hfl] at hfl'
   | bodyWait v hfl hh hexc =>
-    refine ⟨by simpa [releaseOwn_len] using hC.len, ?_, ?_, ?_, ?_, ?_, ?_, ?_⟩
+    refine ⟨by simpa [releaseOwn_len] using hC.len, ?_, ?_, ?_, ?_, ?_, ?_, ?_, ?_⟩
     · intro k q hk; simpa using hC.agree k q ((releaseOwn_done s k q).mp hk)
     · intro he hr k hk
       refine hC.nocancel hexc ?_ k ((releaseOwn_done s k _).mp hk)
@@ -780,6 +779,7 @@ theorem ctrl_step {s s' : State} {op : Op} (hC : Ctrl s) (h : StepCase s op s') 
     · intro _; exact ⟨hfl, hexc⟩
     · intro e' he; simp [hexc] at he
     · intro _ e' hh'; simp at hh'
+    · intro hfl' e' _; simp [hfl] at hfl'
     · intro hfl' e' _; simp [hfl] at hfl'
 
 /-! ### the first exception -/
@@ -909,34 +909,20 @@ theorem seen_step {s s' : State} {op : Op} {ops : List Op} (hC : Ctrl s)
 
 /-! ### tasks unfinished at the instant the helper finishes -/
 
-def Pend (s : State) (ops : List Op) : Prop :=
-  s.pendingAtReturn ≠ 0 → (∃ e, s.helper = .raised e) ∧
-    (s.flavour = .raiseFirst ∨ s.flavour = .raiseCancel ∨ (s.flavour = .online ∧ ∃ e, Op.body (.raise e) ∈ ops))
+/-- only `bounded_gather2_raise_exceptions(cancel_on_error=False)` leaves tasks unfinished when it finishes (documented: "the
+remaining partial functions continue to run") -/
+def Pend (s : State) : Prop :=
+  s.pendingAtReturn ≠ 0 → (∃ e, s.helper = .raised e) ∧ s.flavour = .raiseFirst
 
-theorem pend_mono {s : State} {ops : List Op} (op : Op) {s' : State} (hP : Pend s ops)
-    (h1 : s'.pendingAtReturn = s.pendingAtReturn) (h2 : s'.helper = s.helper) (h3 : s'.flavour = s.flavour) :
-    Pend s' (ops ++ [op]) := by
-  intro hne
-  rw [h1] at hne
-  obtain ⟨he, hf⟩ := hP hne
-  rw [h2, h3]
-  refine ⟨he, ?_⟩
-  rcases hf with hf | hf | ⟨hf, e, hm⟩
-  · exact Or.inl hf
-  · exact Or.inr (Or.inl hf)
-  · exact Or.inr (Or.inr ⟨hf, e, by simp [hm]⟩)
-
-theorem pend_step {s s' : State} {op : Op} {ops : List Op} (hP : Pend s ops) (h : StepCase s op s') :
-    Pend s' (ops ++ [op]) := by
+theorem pend_step {s s' : State} {op : Op} (hP : Pend s) (h : StepCase s op s') : Pend s' := by
   cases h with
-  | plain i o hst hout hside => exact pend_mono _ hP rfl rfl rfl
+  | plain i o hst hout hside => exact hP
   | ret i o hst hout had hside => intro hne; simp at hne
-  | raiseF i e hst hout hfl hh => intro _; exact ⟨⟨e, by simp⟩, Or.inl (by simpa using hfl)⟩
-  | raiseC i e hst hout hfl hh => intro _; exact ⟨⟨e, by simp⟩, Or.inr (Or.inl (by simpa using hfl))⟩
+  | raiseF i e hst hout hfl hh => intro _; exact ⟨⟨e, by simp⟩, by simpa using hfl⟩
+  | raiseC i e hst hout hfl hh => intro hne; simp at hne
   | onlineFailExit i e hst hout hfl hh => intro hne; simp at hne
-  | onlineFail i e hst hout hfl hh => exact pend_mono _ hP rfl rfl rfl
-  | bodyRaise e hfl hh hexc =>
-    intro _; exact ⟨⟨e, by simp⟩, Or.inr (Or.inr ⟨by simpa using hfl, e, by simp⟩)⟩
+  | onlineFail i e hst hout hfl hh => exact hP
+  | bodyRaise e hfl hh hexc => intro hne; simp at hne
   | bodyLate o e0 hfl hh hexc => intro hne; simp at hne
   | bodyRet v hfl hh hexc had => intro hne; simp at hne
   | bodyWait v hfl hh hexc =>
@@ -944,44 +930,6 @@ theorem pend_step {s s' : State} {op : Op} {ops : List Op} (hP : Pend s ops) (h 
     have : s.pendingAtReturn ≠ 0 := hne
     obtain ⟨⟨e, he⟩, _⟩ := hP this
     simp [hh] at he
-
-/-! ### cancel_on_error: what is cancelled -/
-
-/-- after the helper raised with `cancel_on_error=True` because task `i` failed, every task BEFORE `i` (and `i` itself) is
-finished -/
-theorem raiseC_done_upto (s : State) (i e : Nat) (hst : s.st[i]? = some .running) (k : Nat) (hk : k ≤ i) :
-    ∃ q, (raiseNow (cancelFirst (complete s i (.raise e)) i) e (nNotDone (complete s i (.raise e)).st) false).st[k]? =
-      some (TSt.done q) := by
-  have hi : i < s.st.length := by
-    apply Classical.byContradiction; intro hn
-    have : s.st[i]? = none := by simp; omega
-    simp [this] at hst
-  by_cases hki : k = i
-  · subst hki
-    have h1 : (complete s k (.raise e)).st[k]? = some (TSt.done (resOf (.raise e))) :=
-      (complete_done s k (.raise e) k _).mpr (Or.inl ⟨rfl, hi, rfl⟩)
-    -- `cancelBelow k` does not touch position `k`, `grant` does not touch finished tasks
-    have h2 : ∀ (l : List TSt) (j : Nat) (t : TSt), l[j]? = some t → (cancelBelow j l).2[j]? = some t := by
-      intro l
-      induction l with
-      | nil => intro j t h; simp at h
-      | cons x r ih =>
-        intro j t h
-        cases j with
-        | zero => simpa [cancelBelow] using h
-        | succ j =>
-          have := ih j t (by simpa using h)
-          cases x <;> simpa [cancelBelow] using this
-    refine ⟨resOf (.raise e), ?_⟩
-    rw [raiseNow_done]
-    simp only [cancelFirst, grant_done]
-    exact h2 _ _ _ h1
-  · have hlt : k < i := by omega
-    obtain ⟨q, hq⟩ := cancelBelow_below (complete s i (.raise e)).st i k hlt (by rw [complete_len]; omega)
-    refine ⟨q, ?_⟩
-    rw [raiseNow_done]
-    simp only [cancelFirst, grant_done]
-    exact hq
 
 /-! ### reachable states -/
 
@@ -1029,12 +977,13 @@ theorem ctrl_init (fl : Flavour) (en : Entry) (n : Nat) (outs : List Outcome) : 
   have active : ∀ f : Nat, Ctrl ⟨fl, en, outs, (grant f (outs.map fun _ => TSt.queued)).2,
       (grant f (outs.map fun _ => TSt.queued)).1, .active, none, 0⟩ := by
     intro f
-    refine ⟨hlen f, ?_, ?_, ?_, ?_, ?_, ?_, ?_⟩
+    refine ⟨hlen f, ?_, ?_, ?_, ?_, ?_, ?_, ?_, ?_⟩
     · intro k q h; exact absurd h (hnd f k q)
     · intro _ _ k h; exact absurd h (hnd f k _)
     · intro sl h; simp at h
     · intro h; simp at h
     · intro e h; simp at h
+    · intro _ e h; simp at h
     · intro _ e h; simp at h
     · intro _ e h; simp at h
   cases fl
@@ -1045,7 +994,7 @@ theorem ctrl_init (fl : Flavour) (en : Entry) (n : Nat) (outs : List Outcome) : 
     · next hemp =>
       have : outs = [] := by simpa using hemp
       subst this
-      refine ⟨by simp [leave_len], ?_, ?_, ?_, ?_, ?_, ?_, ?_⟩
+      refine ⟨by simp [leave_len], ?_, ?_, ?_, ?_, ?_, ?_, ?_, ?_⟩
       · intro k q h; rw [leave_done] at h; simp at h
       · intro _ _ k h; rw [leave_done] at h; simp at h
       · intro sl h
@@ -1059,6 +1008,7 @@ theorem ctrl_init (fl : Flavour) (en : Entry) (n : Nat) (outs : List Outcome) : 
       · intro e h; simp at h
       · intro h; simp at h
       · intro _ e h; simp at h
+      · intro _ e h; simp at h
     · exact active _
 
 theorem stepcase_consts {s s' : State} {op : Op} (h : StepCase s op s') :
@@ -1069,7 +1019,7 @@ theorem stepcase_consts {s s' : State} {op : Op} (h : StepCase s op s') :
 theorem reach_all {fl : Flavour} {en : Entry} {n : Nat} {outs : List Outcome} {s : State} {ops : List Op}
     (h : Reach fl en n outs s ops) :
     (s.flavour = fl ∧ s.entry = en ∧ s.outs = outs) ∧ Ctrl s ∧
-      (fl ≠ .returnExceptions → errSeen s = firstErr outs ops) ∧ Pend s ops := by
+      (fl ≠ .returnExceptions → errSeen s = firstErr outs ops) ∧ Pend s := by
   induction h with
   | init =>
     obtain ⟨h1, h2, h3⟩ := start_consts fl en n outs
